@@ -44,7 +44,7 @@ def run(plan, acts):
                     stmts = [s for _, s in _sql.schema_statements(schema, rnd, what.get('parts', []))]
                     if what.get('canonical'):
                         # rows that may reach a build before (or without) their CREATE TABLE statement
-                        stmts += [_sql.insert_statement(schema, r, rnd, bool(nm), True)
+                        stmts += [_sql.insert_statement(schema, r, rnd, bool(nm), True, (what.get('spell') or {}).get(r['c']))
                                   for r, nm in zip(what.get('rows', []), what['named'])]
                     else:
                         stmts += [_sql.insert_statement(schema, r, rnd) for r in what.get('rows', [])]
@@ -59,6 +59,7 @@ def run(plan, acts):
                     ev['g'] = m.id_generator.peek() - 1 if isinstance(m.id_generator, xtuml.IntegerGenerator) else -1
                     if len(act) > 1 and act[1].get('undecl'):
                         ev['undecl'] = act[1]['undecl']
+                        ev['names'] = act[1].get('names') or {'_': []}
                 elif act[0] == 'Mutate':
                     w = worlds[act[1] - 1]
                     w.step = k
